@@ -783,7 +783,8 @@ func TestRestartRealTicker(t *testing.T) {
 			runCrash(sc, cut, "all")
 			imageHook = nil
 			if inconclusive {
-				t.Fatalf("harness: ConsensusState.Start did not return in time and is not parked in the ticker (inconclusive): %s", text)
+				// Start has not returned yet but is not parked in the ticker either: a starved machine, no verdict
+				ev.Class("restart-with-product-ticker:inconclusive-slow")
 			}
 			if hung != "" {
 				reproduced = true
